@@ -178,7 +178,15 @@ impl<'t, 'c> IrGen<'t, 'c> {
             }
             1 => {
                 self.k("Bytes");
-                Expression::Bytes(bytes_of(self.t, 64))
+                if self.t.chance(1, 40) {
+                    // an embedded script or a long blob: lengths around the decoder's buffer sizes
+                    self.k("Bytes:long");
+                    let len = [255usize, 256, 4095, 4096, 4097, 9000, 70_000][self.t.pick(7)];
+                    let seed = self.t.pick(256) as u8;
+                    Expression::Bytes((0..len).map(|i| seed.wrapping_add((i % 251) as u8)).collect())
+                } else {
+                    Expression::Bytes(bytes_of(self.t, 64))
+                }
             }
             2 => {
                 self.k("String");
